@@ -11,10 +11,11 @@ check fields left at 0/None (= library computes) or, for full LC whose class nev
 the library's own RS(12,9) parity under the data-type mask or 24 free bits.  GPS coordinates are multiples of the wire
 resolution (360/2^25 and 180/2^24 degrees), the only float values the 25/24-bit fields can carry.
 
-Three field settings are known encode/decode asymmetries of the PDU classes themselves (DESIGN.md §5 rows 3-5, property
-C03) and are routed around: NACK_Rsp additional_information_field=Ignore, C_ALOHA last_block=False, response header
-is_response_requested=True.  The generator draws them freely, replaces the value by the safe one and marks the case
-("_excluded": [...]) so that the driver can count them in `excluded`.
+The EXCL(...) spec type routes a field setting around a defect that belongs to another property: the generator draws
+the field freely, replaces the value by the safe one and marks the case ("_excluded": [...]) so that the driver can count it
+in `excluded`.  It was used for the three PDU-level encode/decode asymmetries of DESIGN.md §5 rows 3-5 (NACK_Rsp
+additional_information_field=Ignore, C_ALOHA last_block=False, response header is_response_requested=True; property C03)
+until they were repaired in /repo (a566ed4, 2d4d28d, 70fa250); no field is excluded any more.
 """
 from __future__ import annotations
 
@@ -95,7 +96,7 @@ SPEC: Dict[Tuple[str, str], List[Tuple[str, tuple]]] = {
     + [("service_options", SVC), ("answer_response", E("AnswerResponse")), ("target_address", U(24)), ("source_address", U(24))],
     ("csbk", "NegativeAcknowledgementResponse"): _CSBK_COMMON
     + [
-        ("additional_information_field", EXCL(E("AdditionalInformationField"), "Valid", "C03:nack_rsp_additional_information_flag_hardwired")),
+        ("additional_information_field", E("AdditionalInformationField")),
         ("source_type", E("SourceType")),
         ("service_type", E("CsbkOpcodes")),
         ("reason_code", E("ReasonCode")),
@@ -123,7 +124,7 @@ SPEC: Dict[Tuple[str, str], List[Tuple[str, tuple]]] = {
     ],
     ("csbk", "HyteraIPSCSync"): _CSBK_COMMON + [("raw_data", BYTES(8))],
     ("csbk", "AlohaPDUsForRandomAccessProtocol"): [
-        ("last_block", EXCL(BOOL, True, "C03:aloha_from_bits_drops_last_block")),
+        ("last_block", BOOL),
         ("protect_flag", BOOL),
         ("fid", E("FeatureSetIDs")),
         ("tsccas_support", BOOL),
@@ -173,7 +174,7 @@ SPEC: Dict[Tuple[str, str], List[Tuple[str, tuple]]] = {
         ("fragment_sequence_number", U(4)),
     ],
     ("header", "ResponsePacket"): [
-        ("is_response_requested", EXCL(BOOL, False, "C03:response_header_writes_A_0_but_reads_A")),
+        ("is_response_requested", BOOL),
         ("sap_identifier", E("SAPIdentifier")),
         ("llid_destination", U(24)),
         ("llid_source", U(24)),
